@@ -13,11 +13,21 @@ MINS = [1, 2, 0xFFFFFFFF, 0xFFFFFFFE]
 SIDS = [1, 2]
 
 
+# every field also takes the wildcard constants of the OTHER fields (0xFF as an instance id or minor version, 0xFFFF as a
+# minor version are ordinary values there)
+IIDS_X = [1, 0xFF, 0xFFFF]
+MAJS_X = [1, 0xFF]
+MINS_X = [1, 0xFF, 0xFFFF, 0xFFFFFFFF]
+
+
 def services(egs=frozenset()):
-    return [
+    base = [
         C.Service(s, i, j, m, eventgroups=egs)
         for s in SIDS for i in IIDS for j in MAJS for m in MINS
     ]
+    seen = {(a.service_id, a.instance_id, a.major_version, a.minor_version) for a in base}
+    cross = [C.Service(1, i, j, m, eventgroups=egs) for i in IIDS_X for j in MAJS_X for m in MINS_X if (1, i, j, m) not in seen]
+    return base + cross
 
 
 def rand_service(r, opts=False):
@@ -46,7 +56,7 @@ def rand_service(r, opts=False):
 
 def run(ctx):
     r = ctx.rng
-    ctx.rule = ("exhaustive over {1,2} service ids x {1,2,wildcard,wildcard-1} per instance/major/minor for all pairs, for "
+    ctx.rule = ("exhaustive over {1,2} service ids x {1,2,wildcard,wildcard-1} per instance/major/minor plus the other fields' wildcard constants as ordinary values (0xFF, 0xFFFF) for all pairs, for "
                 "matches_offer/find/subscribe/service (+ wrong-type entries), plus random full-range values; a case is "
                 "non-trivial when it is a distinct (function, arguments) tuple; each implementation result is compared with the "
                 "model AND judged by the extracted Gallina spec_* functions and by the algebraic laws (symmetry, monotonicity, duality, round-trip)")
